@@ -74,6 +74,9 @@ class C18(Check):
         out = []
         for sp in c02.CHECK.spaces(tier):
             out.append(Space("wf:" + sp.name, sp.bounds, sp.cases, runner="run_wf"))
+        out.append(Space("oddapp<=7", qspaces.describe("oddapp", 3, 7, qspaces.POOL2),
+                         (lambda: qspaces.enumerate_sources("oddapp", 3, 7, qspaces.POOL2, annot=_oor_annot)),
+                         runner="run_odd"))
         for pool in (qspaces.POOL2,):
             hi = 7 if Q else 9
             out.append(Space(f"odd<={hi}", qspaces.describe("odd", 3, hi, pool),
@@ -105,6 +108,13 @@ class C18(Check):
         st, r = self._simplify(q)
         if st == "indexerror":
             res["oc"].append("FuncADLIndexError")
+            if not has_oor and semantic:
+                # a selector that becomes an out-of-range constant only through substitution: justified
+                # iff Python itself raises IndexError for the original on some dataset
+                from .. import refsem
+
+                f0 = refsem.compile_query(q)
+                has_oor = any(refsem.evaluate(f0, d) == ("err", "IndexError") for d in refsem.datasets(False))
             if not has_oor:
                 res["viol"].append({"kind": "unjustified-FuncADLIndexError", "canon": src, "msg": r})
             return res
